@@ -21,6 +21,9 @@ type Spec struct {
 	Compress []bool        `json:"compress,omitempty"`
 	ErrCode  uint32        `json:"err_code,omitempty"`
 	ErrMsg   string        `json:"err_msg,omitempty"`
+	// ErrDetails: number of Any-wrapped detail messages the error carries
+	// (detail i wraps a PingRequest{number: i+1, text: "detail"}).
+	ErrDetails int `json:"err_details,omitempty"`
 	Trailer  []prog.KV     `json:"trailer,omitempty"`
 	Knobs    refwire.Knobs `json:"knobs"`
 }
@@ -39,9 +42,18 @@ func (b Spec) Response() (*refwire.Response, error) {
 	return refwire.BuildResponse(&refwire.RespSpec{
 		Protocol: b.Protocol, Kind: b.Kind, ContentType: b.ContentType(),
 		Msgs: b.EncMsgs(), Encoding: b.Encoding, CompressMsg: b.Compress,
-		Status:  refwire.Status{Code: b.ErrCode, Message: b.ErrMsg},
+		Status:  refwire.Status{Code: b.ErrCode, Message: b.ErrMsg, Details: b.Details()},
 		Trailer: prog.KVMap(b.Trailer), Knobs: b.Knobs,
 	})
+}
+
+// Details are the error details of the response (none for successes).
+func (b Spec) Details() []refwire.Detail {
+	var out []refwire.Detail
+	for i := 0; i < b.ErrDetails && b.ErrCode != 0; i++ {
+		out = append(out, refwire.Detail{TypeURL: "type.googleapis.com/connect.ping.v1.PingRequest", Value: refwire.EncodePing("proto", int64(i+1), "detail")})
+	}
+	return out
 }
 
 func (b Spec) Request() *refwire.Request {
@@ -82,7 +94,8 @@ func Gen(t *rapid.T, dir string, sizes []int) Spec {
 	if dir == "response" {
 		if rapid.IntRange(0, 3).Draw(t, "fail") == 0 {
 			b.ErrCode = uint32(rapid.IntRange(1, 16).Draw(t, "code"))
-			b.ErrMsg = rapid.SampledFrom([]string{"", "boom", "percent % and ünïcode", "line\nbreak"}).Draw(t, "errmsg")
+			b.ErrMsg = rapid.SampledFrom([]string{"", "boom", "percent % and ünïcode", "line\nbreak", "a", "ab", "abc"}).Draw(t, "errmsg")
+			b.ErrDetails = rapid.SampledFrom([]int{0, 0, 1, 2}).Draw(t, "errdetails")
 			if !multi {
 				b.Msgs, b.Compress = nil, nil
 			}
